@@ -95,6 +95,15 @@ def padOp : List String → Option String
   | ["align", p, h] => do
     let p ← natArg p; let d ← hexArg h
     pure s!"ok {(Pad.dataAlign p d).hex}"
+  | ["seq", items] => do
+    -- a sequence of (write_padding := p; write d) on ONE interface object: `p:hex,p:hex,…`
+    let outs ← (items.splitOn ",").mapM fun it =>
+      match it.splitOn ":" with
+      | [p, h] => do
+        let p ← natArg p; let d ← hexArg h
+        pure (Pad.dataAlign p d).hex
+      | _ => none
+    pure ("ok " ++ ",".intercalate outs)
   | _ => none
 
 /-- rec chan <type> <field> <value> ; rec dev <flags> <field> <value> : build the record (all
